@@ -183,7 +183,7 @@ def run(ix, R):
             sigma_t = lp.node.target.elts[1].id
             why = []
             if au.op != 'Add' or not fl.tab.equal(au.value, fl.tab.atom(
-                    'item', (fl.tab.atom('elem', (lp.iter_rf[0], lp.index)), fl.tab.const(1)))):
+                    'idx', (fl.tab.atom('elem', (lp.iter_rf[0], lp.index)), fl.tab.const(1)))):
                 why.append('accumulates %s' % unparse(au.node))
             if au.guards:
                 why.append('accumulation is conditional: %s' % [g.text() for g in au.guards])
